@@ -67,7 +67,7 @@ def run(tier="quick", seed=1, replay=None):
             raise vf.Inconclusive("decode harness failed:\n" + out[-3000:])
         keep = sorted(os.listdir(files), key=lambda x: int(x.split(".")[0]))
         step = max(1, len(keep) // (250 if quick else 2500))
-        always = {str(c["id"]) for c in cases if any(m["f"] == "kv3_type" for m in c.get("muts", [])) and len(c.get("muts", [])) == 1}
+        always = {str(c["id"]) for c in cases if any(m["f"] in ("kv3_type", "t1_shape0") for m in c.get("muts", [])) and len(c.get("muts", [])) == 1}
         for i, fn in enumerate(keep):
             if i % step and fn.split(".")[0] not in always:
                 os.remove(os.path.join(files, fn))
